@@ -4,6 +4,10 @@ import json, subprocess
 
 # id -> (technique, level text, level note, design ref)
 CHECKS = {
+ "C04": ("typed reference evaluator + probe call log over generated expression trees, each rendered in four surface forms (minimal parentheses, no spaces, and/or/not, redundant parentheses)",
+         "Exploration: type-directed random trees (depth <=5) over every operator family and operand kind (float literals, Go ints of several widths, uint on the right, float32/64, strings, bools, calls, index expressions), printed with only the parentheses the documented ladder needs; value, cross-form equality and the order/multiplicity of side-effecting probe operands must match the model; 6 directed cases pin the documented examples.",
+         "Trusts the 150-line typed evaluator. Shapes the statement does not type (% with non-integral operands, int==non-integral float, division by zero, unsigned left operands with negative values, asymmetric spacing) are not generated or are discarded and counted.",
+         "DESIGN.md 3/C04"),
  "C10": ("history monitor with fresh-state reference: every Execute of a history on one locked OS thread (pooled Runtime provably reused) compared with the same call executed right after draining the pools; reflective hash of every parsed template before/after",
          "Exploration: histories of 8-32 Execute calls over generated programs that may fail anywhere plus fixed templates failing deep inside yield-with-content/if-let/range (error, function error, string panic escaping Execute), writers failing mid-output, and probe templates exposing '.', yield content, isset() of earlier names, try and block defaults. Each call's bytes and error must equal its fresh-state reference; template trees must hash the same afterwards. The evidence reports how often consecutive executions saw the same *Runtime (the run is inconclusive below 50%).",
          "Needs the verif hook VerifDrainPools for an exact fresh state (fallback: two GC cycles). Deterministic programs only (single-entry maps, fresh channels and VarMaps per execution). Not run under -race.",
